@@ -2,7 +2,7 @@
    access sites, what a common lock guarantees, resource accounting.
    Statements only; proofs live in Conc/*.v. *)
 From Coq Require Import String List NArith Bool Permutation.
-From SeataV Require Import Conc.LockSet Conc.LockSetProofs Conc.LockSetListing Conc.Accounting Conc.AccountingProofs Conc.LockSetTable.
+From SeataV Require Import Conc.LockSet Conc.LockSetProofs Conc.LockSetListing Conc.Accounting Conc.AccountingProofs Conc.Reent Conc.ReentProofs Conc.LockSetTable.
 Import ListNotations.
 Open Scope string_scope.
 
@@ -105,3 +105,33 @@ Proof. exact refresh_pinned_leaks. Qed.
 Theorem C20_brackets :
   forall f v c, In (f, v, c) ls_brackets -> ~ In f ls_leak_listed -> c = true.
 Proof. exact brackets_at_table. Qed.
+
+(* no re-entrant locking (sync.Mutex / RWMutex / Once are not re-entrant): the checker is sound
+   for every table ... *)
+Theorem C20_reent_checker_sound : forall (fs : list fn_row) (hcs : list hc_row),
+  reent_check fs hcs = true ->
+  forall h, In h hcs -> ~ MayAcquire fs (hc_callee h) (hc_lock h).
+Proof. exact reent_check_sound. Qed.
+
+(* ... and at the tables regenerated from the source: no function calls, while holding a lock of
+   an object (read or write, lexically, incl. `defer Unlock`), a method of the same object or a
+   package-level function that may (transitively, on the same goroutine) acquire that lock again *)
+Theorem C20_no_reentrant_lock :
+  forall h, In h ls_held_calls -> ~ MayAcquire ls_funcs (hc_callee h) (hc_lock h).
+Proof. exact no_reentrant_lock_at_table. Qed.
+
+Example C20_no_reentrant_lock_nonvacuous :
+  negb (Nat.eqb (length ls_held_calls) 0)
+  && existsb (fun r => negb (Nat.eqb (length (f_may r)) 0)) ls_funcs = true.
+Proof. exact reent_table_nonvacuous. Qed.
+
+(* why it matters: in the mutex machine a held lock bars its own re-acquisition, and the
+   blocked acquisition leaves the state unchanged for ever (the releasing code is behind it) *)
+Theorem C20_held_bars_reacquire : forall (s : lstate) t l m,
+  In (t, l, m) s ->
+  can_acquire s l Excl = false /\ (m = Excl -> can_acquire s l Shared = false).
+Proof. exact held_bars_reacquire. Qed.
+
+Theorem C20_reacquire_stutters : forall (s : lstate) t l m,
+  In (t, l, m) s -> lstep s (Acquire t l Excl) = s.
+Proof. exact reacquire_stutters. Qed.
